@@ -213,6 +213,33 @@ fn case(a: &[u8], b: &[u8], out: &mut Local) {
                         }
                     }
                 }
+                // the same text as a user-defined DiffableStr whose len()/slice() count CHARACTERS and
+                // which knows a further line terminator (same letter case on both sides, so that the
+                // byte-for-byte reconstruction applies): remapper and helper are generic over the type
+                if as_str && a.len() + b.len() <= 4000 {
+                    use crate::odd_str::{oddify_same_case, OddStr};
+                    let (ta, tb) = (oddify_same_case(std::str::from_utf8(a).unwrap()), oddify_same_case(std::str::from_utf8(b).unwrap()));
+                    let (oa, ob) = (OddStr::new(&ta), OddStr::new(&tb));
+                    out.eval();
+                    let r = guard(|| {
+                        let d = diff_with(tok, alg, oa, ob);
+                        let (mut f, n) = check_remapper(&d, oa, ob);
+                        let got: Vec<(ChangeTag, Vec<u8>)> = helper(tok, alg, oa, ob).into_iter().map(|(t, s)| (t, s.as_bytes().to_vec())).collect();
+                        for (code, msg) in check_helper(&got, ta.as_bytes(), tb.as_bytes()) {
+                            f.push((code, format!("utils::diff_{}: {}", TOKS[tok], msg)));
+                        }
+                        (f, n)
+                    });
+                    match r {
+                        Err(p) => out.violation("panic", format!("remapper / helper over a user-defined DiffableStr panicked: {} | type=OddStr (character-indexed, U+2028 ends a line) old={} new={} | {}", p, show(ta.as_bytes()), show(tb.as_bytes()), ctx())),
+                        Ok((fails, slices)) => {
+                            out.count_n("remapped_slices_observed_user_defined_type", slices);
+                            for (code, msg) in fails.into_iter().take(3) {
+                                out.violation(code, format!("{} | type=OddStr (character-indexed, U+2028 ends a line) old={} new={} | {}", msg, show(ta.as_bytes()), show(tb.as_bytes()), ctx()));
+                            }
+                        }
+                    }
+                }
                 // one-call helper
                 out.eval();
                 let r = guard(|| -> Vec<(ChangeTag, Vec<u8>)> {
